@@ -12,13 +12,13 @@ RULE = ("exhaustive 256x256 (type, code) grid for ICMPv4 and for ICMPv6 (partiti
         "well-formed for its type: echo with id/seq/data, NS with a handled target), every echo payload length 0..1472 "
         "in both IP versions, ARP with op in {0..10, 0xffff, random}, target handled / not handled / no self-IP list, "
         "0..18 bytes of trailing padding, NS without option / with SLLA / nonce / several options to unicast and "
-        "solicited-node destinations, targets handled or not. Each request is compared with the exact reply (or silence) "
+        "solicited-node destinations, from ordinary and from the unspecified source address, targets handled or not, other ICMPv6 types, under random logger / verbosity settings. Each request is compared with the exact reply (or silence) "
         "predicted by the model. Non-trivial = every case (the model decides answer vs silence for each); distinct = "
         "distinct (kind, outcome, type/code or op, message length, destination class, self-IP list present).")
 ASSUME = ["ARP requests with hardware/protocol types other than Ethernet/IPv4 are outside the statement (crash-freedom only, C01)",
           "only the first 28 bytes of an ARP reply are constrained (trailing padding is not)",
           "the Router flag of a Neighbour Advertisement is unconstrained; Solicited and Override must be set",
-          "neighbour solicitations from the unspecified address are not generated"]
+          "a solicitation from the unspecified address is expected to be answered like any other (Solicited and Override set), as the statement says"]
 
 
 def expect_arp(q, cfg, f):
@@ -140,7 +140,8 @@ def shard(ctx, budget_s):
     # ---- ARP and NS shapes under random configurations ---------------------------------------------------
     n = 0
     while time.time() < deadline or n == 0:
-        cfg = gen.rnd_config(rng, deny=False, logger="n", level=0)
+        # the behaviour must not depend on the log configuration: draw logger and verbosity too
+        cfg = gen.rnd_config(rng, deny=False, logger=rng.choice("nnncl"), level=rng.choice([0, 0, 1, 2, 3, 4, 5]))
         items = []
         for _ in range(60):
             e = gen.endp(rng, cfg, False)
@@ -162,7 +163,15 @@ def shard(ctx, budget_s):
             sol = rng.random() < 0.5
             if sol and (not cfg.selfips or target not in cfg.selfips):
                 sol = False     # that solicited-node MAC is not an authorised destination (C02): not this check's subject
+            if rng.random() < 0.1:
+                # duplicate-address-detection shape: solicitation from the unspecified address (no SLLA option allowed)
+                e = pkt.Endp(e.cmac, e.smac, bytes(16), e.sip)
+                opts = b""
             items.append(("ns", gen.ns_frame(e, target, opts=opts, code=code, dst_solicited=sol)))
+            if rng.random() < 0.2:
+                t = rng.choice([133, 134, 136, 137, 130, 131, 143, 1, 2, 3, 4, 129, rng.randrange(256)])
+                if t not in (128, 135):
+                    items.append(("icmp6_other", e.l3(P_ICMP6, pkt.icmp6(e.cip, e.sip, t, 0, bytes(rng.getrandbits(8) for _x in range(rng.choice([4, 8, 20, 28])))))))
             typ = rng.choice([None, None, 0 if not e.v6 else 129])
             items.append(("echo", e.echo(rng.getrandbits(16), rng.getrandbits(16), b"x" * rng.randrange(0, 100), code=rng.choice([0, 0, 0, 1, 3]), typ=typ)))
             e4 = gen.endp(rng, cfg, False)
